@@ -212,7 +212,7 @@ def random_history(rng, bid):
 # ------------------------------------------------------------------------------ traces and verdicts
 
 def to_trace(events):
-    """Rename thread-state addresses to small integers (TLC integers are 32-bit)."""
+    """Rename thread-state ids to small integers (kept small for TLC)."""
     names = {}
 
     def nm(p):
@@ -427,7 +427,7 @@ def run(ctx):
                        "has >= 1 foreign thread calling back into Python")
     ctx.cov["exhaustive"] = bool(exhaustive)
     ctx.assumptions += [
-        "thread-state identity = address returned by PyThreadState_Get(); addresses may be reused after a delete",
+        "thread-state identity = PyThreadState_GetID() (unique per interpreter; addresses are reused by CPython)",
         "the list of thread states is read with the GIL held (ctypes.pythonapi); insertions by registering "
         "threads are the only concurrent writers",
         "lock-step replays linearise whole operations (gil_ensure .. body, body .. gil_release, thread exit); "
